@@ -4,7 +4,7 @@ none), EVERY master policy `pol` (arbitrary functions of the step number and the
 odd values, runtime errors, switching at any time) and EVERY history `hist` of (actor, operation) pairs
 (load / clone / seteuid(string|int) / export_uid / destruct / reload_object by the master or any other object,
 existing or not), EVERY assignment of create() scripts to file names (`pol.script`: ops an object under construction
-performs from inside its create(), nested to any depth) and EVERY fuel (nesting bound of the model).
+performs from inside its create(), nested to any depth), EVERY compile_object policy `pol.co` (virtual objects) and EVERY fuel (nesting bound of the model).
 `events cfg pol fuel hist` is the model's event trace (one record per segment between two uid snapshots); the clauses are those of the oracle
 `judgeEv` (NV/C20/Spec.lean), which is also run on every trace of the real driver.
 -/
@@ -88,7 +88,7 @@ theorem model_satisfies_spec (cfg : Cfg) (pol : Policy) (fuel : Nat) (hist : Lis
 /-- non-vacuity: a history on which objects are created, seteuid is approved and refused, export succeeds -/
 example :
     let pol : Policy := { cf := fun _ n => if n = "/c20/bb/a" then .str "Backbone" else .str "u1",
-                          vs := fun _ _ u => if u = "zed" then .int 0 else .int 1, script := fun _ _ => [] }
+                          vs := fun _ _ u => if u = "zed" then .int 0 else .int 1, script := fun _ _ => [], co := fun _ _ => .silent }
     let tr := events { root := "Root", bb := some "Backbone" } pol 3
       [("m", .load ⟨"u1", "a"⟩), ("u1a", .seteuidStr "zed"), ("u1a", .seteuidStr "u1"), ("u1a", .load ⟨"bb", "a"⟩),
        ("m", .load ⟨"u1", "b"⟩), ("u1a", .exportUid "u1b"), ("u1b", .clone "c1" ⟨"u1", "a"⟩)]
@@ -101,13 +101,28 @@ example :
 example :
     let pol : Policy := { cf := fun _ n => if n = "/c20/u1/a" then .str "u1" else .str "u2", vs := fun _ _ _ => .int 1,
                           script := fun _ k => if k = "/c20/u2/a" then
-                            [.load ⟨"u2", "b"⟩, .clone "c1" ⟨"u2", "b"⟩, .seteuidStr "u2", .load ⟨"u2", "b"⟩] else [] }
+                            [.load ⟨"u2", "b"⟩, .clone "c1" ⟨"u2", "b"⟩, .seteuidStr "u2", .load ⟨"u2", "b"⟩] else [],
+                          co := fun _ _ => .silent }
     let tr := events { root := "Root", bb := some "Backbone" } pol 3
       [("m", .load ⟨"u1", "a"⟩), ("u1a", .seteuidStr "u1"), ("u1a", .load ⟨"u2", "a"⟩)]
     (tr.map (fun r => (r.actor, r.res))) =
       [("m", none), ("m", some (.oid "u1a")), ("u1a", some (.int 1)), ("u1a", none),
        ("u2a", some (.err .noEuidLoad)), ("u2a", some (.err .noEuidClone)), ("u2a", some (.int 1)),
        ("u2a", none), ("u2a", some (.oid "u2b")), ("u1a", some (.oid "u2a"))] := by decide
+
+/-- non-vacuity with a virtual object: the master's compile_object clones a template for `/c20/u1/v1`; an object
+    with euid 0 may find the loaded virtual object but its clone_object of it is refused before compile_object is
+    asked again; with an euid the clone is handed out as `v2` -/
+example :
+    let pol : Policy := { cf := fun _ _ => .str "u1", vs := fun _ _ _ => .int 1, script := fun _ _ => [],
+                          co := fun _ n => if n = "/c20/u1/v1" then .tmpl ⟨"u2", "a"⟩ else .silent }
+    let tr := events { root := "Root", bb := some "Backbone" } pol 3
+      [("m", .load ⟨"u1", "v1"⟩), ("m", .load ⟨"u1", "a"⟩), ("u1a", .load ⟨"u1", "v1"⟩),
+       ("u1a", .clone "c1" ⟨"u1", "v1"⟩), ("u1a", .seteuidStr "u1"), ("u1a", .clone "c1" ⟨"u1", "v1"⟩)]
+    (tr.filterMap (fun r => r.res.map (fun x => (r.actor, x)))) =
+      [("m", .oid "v1"), ("m", .oid "v1"), ("m", .oid "u1a"), ("u1a", .oid "v1"), ("u1a", .err .noEuidClone),
+       ("u1a", .int 1), ("m", .oid "v2"), ("u1a", .oid "v2")] ∧
+    (tr.filter (fun r => r.co.isSome)).map (·.actor) = ["m", "u1a"] := by decide
 
 /-- clause `c` holds at every step of a trace, each step judged against the snapshot before it -/
 def holdsAlong (c : List Obj → StepRec → Bool) : List Obj → List StepRec → Prop
@@ -262,7 +277,7 @@ theorem every_object_has_uid (cfg : Cfg) (pol : Policy) (fuel : Nat) (hist : Lis
 /-- non-vacuity of `no_crash` / `every_object_has_uid`: the history that crashed the unrepaired driver (master
     drops its euid, then loads an object whose creator_file answer is the backbone uid) now yields uid "Backbone" -/
 example :
-    let pol : Policy := { cf := fun _ _ => .str "Backbone", vs := fun _ _ _ => .int 1, script := fun _ _ => [] }
+    let pol : Policy := { cf := fun _ _ => .str "Backbone", vs := fun _ _ _ => .int 1, script := fun _ _ => [], co := fun _ _ => .silent }
     ((events { root := "Root", bb := some "Backbone" } pol 1 [("m", .seteuidInt 0), ("m", .load ⟨"bb", "a"⟩)]).map
         (fun r => r.snap.map (fun S => S.map (fun o => (o.oid, o.uid, o.euid))))).getLast? =
       some (some [("bba", some "Backbone", none), ("m", some "Root", none)]) := by decide
